@@ -23,8 +23,17 @@ def run_one(pid, tier, replay=None):
     mod = importlib.import_module("drivers." + pid.lower())
     rep = common.Report(pid, tier, getattr(mod, "LEVEL", LEVELS.get(pid, "model_checking")))
     try:
-        if replay:
+        if replay and hasattr(mod, "replay"):
             mod.replay(replay, rep)
+        elif replay:
+            # generic replay: re-run the check at the witness's tier/seed and keep only its signature
+            import json
+            w = json.load(open(replay))
+            os.environ["VERIF_SEED"] = str(w.get("seed", 0))
+            rep.tier = w.get("tier", tier)
+            mod.main(rep.tier, rep)
+            rep.violations = {k: v for k, v in rep.violations.items() if k == w["signature"]}
+            print("replay:", "REPRODUCED" if rep.violations else "not reproduced on this tree", w["signature"])
         else:
             mod.main(tier, rep)
     except common.MachineryError as e:
